@@ -220,6 +220,9 @@ def run_tok_job(job, build, corpus, oracle, max_validate=400, step_budget=600000
 def finish_tok(prop, results, jobs, build, out, tier, seed, wall, oracle, corpus, bounds, extra_assumptions=()):
     """aggregate tok jobs into Outcome + evidence dict"""
     from . import framework as fw
+    if tier != "quick":
+        bounds = dict(bounds)
+        bounds["largest_size"] = tok.REDUCED_NOTE
     stats = fw.merge_stats(results)
     models = fw.merge_counts(results, "models_used")
     fnh = fw.merge_counts(results, "fn_hits")
